@@ -1,5 +1,7 @@
 import Sigc.Model
 import Sigc.Lemmas.Basic
+import Sigc.Lemmas.StepSlots
+import Sigc.Lemmas.StepSlots2
 /-!
 # C15 — slots are values: copies are independent, moves empty the source
 
@@ -8,7 +10,7 @@ what `cpS/mvS/asgS/masgS/conn/connmv/nest` of the operation language execute (`S
 They hold for every slot value — there is no bound on the functor nested inside.
 -/
 namespace Sigc.C15
-open Sigc.Model
+open Sigc.Model Sigc.StepSlots
 
 /-- a default-constructed slot is empty -/
 theorem default_empty : ({} : SlotB).empty = true := rfl
@@ -67,5 +69,759 @@ theorem cpS_frame (s s' : St) (r : String) (j i : Nat) (h : stepSimple s (.cpS j
 
 example : ({ blocked := true, rep := some { call := true, fn := some (.leaf 3 [7]) } } : SlotB).copy.empty = false := by
   decide
+
+/-! ## slot-value algebra (`SlotB` = `slot_base`) -/
+
+/-- copying a copy changes nothing more: a copy is already in normal form -/
+theorem copy_copy (s : SlotB) : s.copy.copy = s.copy := by
+  unfold SlotB.copy
+  cases hr : s.rep with
+  | none => simp
+  | some r => cases hc : r.call <;> simp [hc]
+
+/-- the copy carries the source's blocking state, except that the copy of an invalidated slot is `slot_base()` -/
+theorem copy_blocked (s : SlotB) (h : s.rep = none ∨ s.empty = false) : s.copy.blocked = s.blocked := by
+  unfold SlotB.copy
+  cases hr : s.rep with
+  | none => simp
+  | some r =>
+    rcases h with h | h
+    · simp [hr] at h
+    · simp [SlotB.empty, hr] at h; simp [h]
+
+/-- number of functor copies held by a copy: the same for a valid source (its own copy), none otherwise -/
+theorem copy_live_count (s : SlotB) (fid : Nat) : s.copy.live fid = if s.empty then 0 else s.live fid :=
+  copy_live s fid
+
+/-- a move neither creates nor destroys a functor copy -/
+theorem move_live_total (s : SlotB) (fid : Nat) : s.move.1.live fid + s.move.2.live fid = s.live fid := by
+  have := move_live s fid; omega
+
+/-- `slot_rep::disconnect()` only nulls `call_`: the functor is not yet released, the blocking state stays -/
+theorem disconnect_keeps_functor (s : SlotB) (fid : Nat) :
+    s.disconnectRep.live fid = s.live fid ∧ s.disconnectRep.rep.isSome = s.rep.isSome := by
+  unfold SlotB.disconnectRep
+  cases hr : s.rep with
+  | none => simp [hr]
+  | some r =>
+    obtain ⟨c, fn⟩ := r
+    cases fn <;> simp [SlotB.live, hr]
+
+/-- an invalidated slot is empty, has released its functor and keeps its blocking state -/
+theorem invalidate_empty (s : SlotB) (fid : Nat) :
+    s.invalidate.empty = true ∧ s.invalidate.live fid = 0 ∧ s.invalidate.blocked = s.blocked := by
+  unfold SlotB.invalidate
+  cases hr : s.rep with
+  | none => simp [SlotB.empty, SlotB.live, hr]
+  | some r => simp [SlotB.empty, SlotB.live]
+
+example : ({ blocked := true, rep := some { call := false, fn := some (.leaf 3 []) } } : SlotB).copy = {} := rfl
+example : ({ blocked := true, rep := some { call := true, fn := some (.leaf 3 []) } } : SlotB).move
+    = ({ blocked := true, rep := some { call := true, fn := some (.leaf 3 []) } }, {}) := rfl
+
+/-! ## construction: `mkS0`, `mkS`, `cpS`, `mvS` -/
+
+/-- `slot<T>()`: the new variable is empty (no rep, not blocked); nothing else changes -/
+theorem mkS0_default_empty (s s' : St) (r : String) (i : Nat) (ty : String)
+    (hn : aget s.S i = none) (hty : ty = "I" ∨ ty = "V")
+    (h : stepSimple s (.mkS0 i ty) = some (s', r)) :
+    r = "ok" ∧ aget s'.S i = some { isVoid := ty = "V", slot := {} } ∧ SlotFrame i s s' ∧
+    stepSimple s' (.emptySq i) = some (s', "1") ∧ ∀ fid, liveCount s' fid = liveCount s fid := by
+  rw [mkS0_eq s i ty hn hty] at h
+  simp only [Option.some.injEq, Prod.mk.injEq] at h
+  obtain ⟨rfl, rfl⟩ := h
+  refine ⟨rfl, aget_aset_same _ _ _, slotFrame_aset _ _ _, ?_, ?_⟩
+  · simp [stepSimple, SlotB.empty, bstr]
+  · intro fid
+    rw [liveCount_aset_new s i _ fid hn]
+    simp [SlotB.live]
+
+example : stepSimple { S := [(1, { isVoid := true, slot := {} })] } (.mkS0 0 "I")
+    = some ({ S := [(1, { isVoid := true, slot := {} }), (0, { isVoid := false, slot := {} })] }, "ok") := by
+  simp [stepSimple, aget, aset]
+
+/-- `slot<T>(functor)`: the new variable is valid, unblocked and holds its own functor value `fn`
+    (the one `mkFun` built); no other slot variable, cell or connection changes; exactly the functor
+    copies inside `fn` are added -/
+theorem mkS_own_copy (s s0 s' : St) (r : String) (i : Nat) (ty : String) (spec : FSpec) (fn : Fun)
+    (hn : aget s.S i = none) (hty : ty = "I" ∨ ty = "V")
+    (hf : mkFun s (ty = "V") spec = .ok (fn, s0))
+    (h : stepSimple s (.mkS i ty spec) = some (s', r)) :
+    r = "ok" ∧
+    (∃ v, aget s'.S i = some v ∧ v.slot = { blocked := false, rep := some { call := true, fn := some fn } } ∧
+          v.slot.empty = false ∧ v.incall = 0 ∧ v.isVoid = decide (ty = "V")) ∧
+    (∀ k, k ≠ i → aget s'.S k = aget s.S k) ∧
+    s'.impls = s.impls ∧ s'.C = s.C ∧ s'.K = s.K ∧ s'.T = s.T ∧ s'.G = s0.G ∧
+    ∀ fid, liveCount s' fid = liveCount s fid + fn.count fid := by
+  rw [mkS_eq s s0 i ty spec fn hn hty hf] at h
+  simp only [Option.some.injEq, Prod.mk.injEq] at h
+  obtain ⟨rfl, rfl⟩ := h
+  obtain ⟨⟨hT, hS, hC, hK, hI, _⟩, _⟩ := mkFun_ok s s0 _ spec fn hf
+  refine ⟨rfl, ⟨_, aget_aset_same _ _ _, rfl, rfl, rfl, rfl⟩, ?_, hI, hC, hK, hT, rfl, ?_⟩
+  · intro k hk
+    show aget (aset s0.S i _) k = _
+    rw [aget_aset_other _ _ _ _ hk, hS]
+  · intro fid
+    rw [liveCount_aset_new s0 i _ fid (by rw [hS]; exact hn)]
+    rw [liveCount_congr s s0 fid hS hI]
+    simp [SlotB.live]
+
+example : stepSimple { T := [(4, 9)] } (.mkS 0 "I" (.mem 3 4))
+    = some ({ T := [(4, 9)], S := [(0, { isVoid := false, slot := { blocked := false, rep := some { call := true, fn := some (.leaf 3 [9]) } } })] }, "ok") := by
+  simp [stepSimple, aget, aset, mkFun, specTaint]
+
+/-- `slot(const slot&)`: the new variable holds `src.copy`, the source and everything else is untouched;
+    the number of functor copies grows by those of a valid source and by nothing for an empty/invalidated one -/
+theorem cpS_copy (s s' : St) (r : String) (j i : Nat) (v : SlotVar)
+    (hv : aget s.S i = some v) (hn : aget s.S j = none)
+    (h : stepSimple s (.cpS j i) = some (s', r)) :
+    r = "ok" ∧ aget s'.S j = some { isVoid := v.isVoid, slot := v.slot.copy, taint := v.taint } ∧
+    aget s'.S i = some v ∧ SlotFrame j s s' ∧
+    ∀ fid, liveCount s' fid = liveCount s fid + if v.slot.empty then 0 else v.slot.live fid := by
+  rw [cpS_eq s j i v hv hn] at h
+  simp only [Option.some.injEq, Prod.mk.injEq] at h
+  obtain ⟨rfl, rfl⟩ := h
+  have hji : i ≠ j := by intro e; subst e; rw [hv] at hn; cases hn
+  refine ⟨rfl, aget_aset_same _ _ _, ?_, slotFrame_aset _ _ _, ?_⟩
+  · show aget (aset s.S j _) i = _
+    rw [aget_aset_other _ _ _ _ hji, hv]
+  · intro fid
+    rw [liveCount_aset_new s j _ fid hn]
+    simp only [copy_live]
+
+example : stepSimple { S := [(0, { isVoid := false, slot := { blocked := true, rep := some { call := true, fn := some (.leaf 3 []) } } })] } (.cpS 1 0)
+    = some ({ S := [(0, { isVoid := false, slot := { blocked := true, rep := some { call := true, fn := some (.leaf 3 []) } } }),
+                    (1, { isVoid := false, slot := { blocked := true, rep := some { call := true, fn := some (.leaf 3 []) } } })] }, "ok") := by
+  simp [stepSimple, aget, aset, SlotB.copy]
+
+/-- `slot(slot&&)`: the destination is `src.move.1` (same rep, same blocking state), the source becomes
+    `src.move.2`, which is empty; nothing else changes and no functor copy is created or destroyed -/
+theorem mvS_move (s s' : St) (r : String) (j i : Nat) (v : SlotVar)
+    (hv : aget s.S i = some v) (hn : aget s.S j = none) (hin : v.incall = 0)
+    (h : stepSimple s (.mvS j i) = some (s', r)) :
+    r = "ok" ∧ aget s'.S j = some { isVoid := v.isVoid, slot := v.slot.move.1, taint := v.taint } ∧
+    aget s'.S i = some { v with slot := v.slot.move.2 } ∧ v.slot.move.2.empty = true ∧
+    v.slot.move.1.rep = v.slot.rep ∧ v.slot.move.1.blocked = v.slot.blocked ∧
+    SlotFrame2 j i s s' ∧ ∀ fid, liveCount s' fid = liveCount s fid := by
+  rw [mvS_eq s j i v hv hn hin] at h
+  simp only [Option.some.injEq, Prod.mk.injEq] at h
+  obtain ⟨rfl, rfl⟩ := h
+  have hji : i ≠ j := by intro e; subst e; rw [hv] at hn; cases hn
+  refine ⟨rfl, aget_aset_same _ _ _, ?_, move_empties_source _, (move_preserves_behaviour _).1,
+          (move_preserves_behaviour _).2, slotFrame2_aset2 _ _ _ _ _, ?_⟩
+  · show aget (aset (aset s.S i _) j _) i = _
+    rw [aget_aset_other _ _ _ _ hji, aget_aset_same]
+  · intro fid
+    have h1 := liveCount_aset s i v { v with slot := v.slot.move.2 } fid hv
+    have hn' : aget ({ s with S := aset s.S i { v with slot := v.slot.move.2 } } : St).S j = none := by
+      show aget (aset s.S i _) j = none
+      rw [aget_aset_other _ _ _ _ hji.symm, hn]
+    have h2 := liveCount_aset_new { s with S := aset s.S i { v with slot := v.slot.move.2 } } j
+      { isVoid := v.isVoid, slot := v.slot.move.1, taint := v.taint } fid hn'
+    have h3 := move_live v.slot fid
+    simp only at h1 h2
+    show liveCount { s with S := aset (aset s.S i _) j _ } fid = _
+    omega
+
+example : stepSimple { S := [(0, { isVoid := false, slot := { blocked := true, rep := some { call := true, fn := some (.leaf 3 []) } } })] } (.mvS 1 0)
+    = some ({ S := [(0, { isVoid := false, slot := {} }),
+                    (1, { isVoid := false, slot := { blocked := true, rep := some { call := true, fn := some (.leaf 3 []) } } })] }, "ok") := by
+  simp [stepSimple, aget, aset, SlotB.move]
+
+/-- a slot variable cannot be moved from while a direct call of it is running (`busy`: the op language
+    refuses what would be a use of a moved-from `this`) -/
+theorem mvS_busy (s : St) (j i : Nat) (v : SlotVar) (hv : aget s.S i = some v) (hn : aget s.S j = none)
+    (hin : v.incall > 0) : stepSimple s (.mvS j i) = some (s, "busy") := by
+  simp only [stepSimple, hv, hn, hin]
+  rfl
+
+/-! ## copy assignment `asgS j i` (`slot_base::operator=(const slot_base&)`): which branch, what result -/
+
+/-- self-assignment is a no-op: the whole state is unchanged (same rep, same blocking state, same
+    functor copies) -/
+theorem asgS_self_assign_noop (s s' : St) (r : String) (i : Nat) (d : SlotVar)
+    (hd : aget s.S i = some d) (hin : d.incall = 0)
+    (h : stepSimple s (.asgS i i) = some (s', r)) :
+    r = "ok" ∧ s' = s := by
+  rw [asgS_eq s i i d d hd hd rfl hin] at h
+  simp only [Option.some.injEq, Prod.mk.injEq] at h
+  obtain ⟨rfl, rfl⟩ := h
+  refine ⟨rfl, ?_⟩
+  have : ({ d with slot := asgSlot i i d.slot d.slot, taint := maxTaint d.taint d.taint } : SlotVar) = d := by
+    simp [asgSlot, maxTaint_self]
+  rw [this, aset_self _ _ _ hd]
+
+example : stepSimple { S := [(0, { isVoid := false, slot := { blocked := true, rep := some { call := true, fn := some (.leaf 3 []) } }, taint := 2 })] } (.asgS 0 0)
+    = some ({ S := [(0, { isVoid := false, slot := { blocked := true, rep := some { call := true, fn := some (.leaf 3 []) } }, taint := 2 })] }, "ok") := by
+  simp [stepSimple, aget, aset]
+
+/-- both operands without a rep (`rep_ == src.rep_`): only `blocked_` is copied -/
+theorem asgS_both_without_rep (s s' : St) (r : String) (j i : Nat) (d v : SlotVar)
+    (hd : aget s.S j = some d) (hv : aget s.S i = some v)
+    (hty : d.isVoid = v.isVoid) (hin : d.incall = 0)
+    (hdr : d.slot.rep = none) (hvr : v.slot.rep = none)
+    (h : stepSimple s (.asgS j i) = some (s', r)) :
+    r = "ok" ∧
+    aget s'.S j = some { d with slot := { blocked := v.slot.blocked, rep := none }, taint := maxTaint d.taint v.taint } ∧
+    SlotFrame j s s' ∧ ∀ fid, liveCount s' fid = liveCount s fid := by
+  rw [asgS_eq s j i d v hd hv hty hin] at h
+  simp only [Option.some.injEq, Prod.mk.injEq] at h
+  obtain ⟨rfl, rfl⟩ := h
+  have hs : asgSlot j i d.slot v.slot = { blocked := v.slot.blocked, rep := none } := by
+    simp [asgSlot, hdr, hvr]
+  rw [hs]
+  refine ⟨rfl, aget_aset_same _ _ _, slotFrame_aset _ _ _, ?_⟩
+  intro fid
+  have := liveCount_aset s j d { d with slot := { blocked := v.slot.blocked, rep := none }, taint := maxTaint d.taint v.taint } fid hd
+  rw [live_of_rep_none d.slot fid hdr] at this
+  exact this
+
+example : stepSimple { S := [(0, { isVoid := false, slot := { blocked := true, rep := none } }), (1, { isVoid := false, slot := {} })] } (.asgS 1 0)
+    = some ({ S := [(0, { isVoid := false, slot := { blocked := true, rep := none } }), (1, { isVoid := false, slot := { blocked := true, rep := none } })] }, "ok") := by
+  simp [stepSimple, aget, aset]
+
+/-- source empty (no rep, or an invalidated rep) and at least one operand has a rep: the destination's
+    rep is dropped (`delete_rep_with_check`), its functor copy released, its blocking state KEPT;
+    the source is untouched -/
+theorem asgS_from_empty (s s' : St) (r : String) (j i : Nat) (d v : SlotVar)
+    (hd : aget s.S j = some d) (hv : aget s.S i = some v)
+    (hty : d.isVoid = v.isVoid) (hin : d.incall = 0)
+    (hji : j ≠ i) (hrep : d.slot.rep ≠ none ∨ v.slot.rep ≠ none) (he : v.slot.empty = true)
+    (h : stepSimple s (.asgS j i) = some (s', r)) :
+    r = "ok" ∧
+    aget s'.S j = some { d with slot := { blocked := d.slot.blocked, rep := none }, taint := maxTaint d.taint v.taint } ∧
+    aget s'.S i = some v ∧ SlotFrame j s s' ∧
+    ∀ fid, liveCount s' fid + d.slot.live fid = liveCount s fid := by
+  rw [asgS_eq s j i d v hd hv hty hin] at h
+  simp only [Option.some.injEq, Prod.mk.injEq] at h
+  obtain ⟨rfl, rfl⟩ := h
+  have hs : asgSlot j i d.slot v.slot = { blocked := d.slot.blocked, rep := none } := by
+    have : ¬ (d.slot.rep = none ∧ v.slot.rep = none) := by
+      intro ⟨h1, h2⟩; rcases hrep with h | h <;> contradiction
+    simp [asgSlot, hji, this, he]
+  rw [hs]
+  refine ⟨rfl, aget_aset_same _ _ _, ?_, slotFrame_aset _ _ _, ?_⟩
+  · show aget (aset s.S j _) i = _
+    rw [aget_aset_other _ _ _ _ (Ne.symm hji), hv]
+  · intro fid
+    have := liveCount_aset s j d { d with slot := { blocked := d.slot.blocked, rep := none }, taint := maxTaint d.taint v.taint } fid hd
+    simp only [SlotB.live] at this
+    simp only [SlotB.live]
+    omega
+
+example : stepSimple { S := [(0, { isVoid := false, slot := { blocked := false, rep := some { call := false, fn := none } } }),
+                             (1, { isVoid := false, slot := { blocked := true, rep := some { call := true, fn := some (.leaf 3 []) } } })] } (.asgS 1 0)
+    = some ({ S := [(0, { isVoid := false, slot := { blocked := false, rep := some { call := false, fn := none } } }),
+                    (1, { isVoid := false, slot := { blocked := true, rep := none } })] }, "ok") := by
+  simp [stepSimple, aget, aset, SlotB.empty]
+
+/-- source valid: the destination gets its own copy of the source's functor and the source's
+    blocking state; the old functor copy of the destination is dropped exactly once; the source is untouched -/
+theorem asgS_from_valid (s s' : St) (r : String) (j i : Nat) (d v : SlotVar) (rv : Rep)
+    (hd : aget s.S j = some d) (hv : aget s.S i = some v)
+    (hty : d.isVoid = v.isVoid) (hin : d.incall = 0)
+    (hji : j ≠ i) (hvr : v.slot.rep = some rv) (hc : rv.call = true)
+    (h : stepSimple s (.asgS j i) = some (s', r)) :
+    r = "ok" ∧
+    aget s'.S j = some { d with slot := { blocked := v.slot.blocked, rep := some { call := true, fn := rv.fn } },
+                                taint := maxTaint d.taint v.taint } ∧
+    aget s'.S i = some v ∧ SlotFrame j s s' ∧
+    ∀ fid, liveCount s' fid + d.slot.live fid = liveCount s fid + v.slot.live fid := by
+  rw [asgS_eq s j i d v hd hv hty hin] at h
+  simp only [Option.some.injEq, Prod.mk.injEq] at h
+  obtain ⟨rfl, rfl⟩ := h
+  have hs : asgSlot j i d.slot v.slot = { blocked := v.slot.blocked, rep := some { call := true, fn := rv.fn } } := by
+    simp [asgSlot, hji, hvr, SlotB.empty, SlotB.copy, hc]
+  rw [hs]
+  refine ⟨rfl, aget_aset_same _ _ _, ?_, slotFrame_aset _ _ _, ?_⟩
+  · show aget (aset s.S j _) i = _
+    rw [aget_aset_other _ _ _ _ (Ne.symm hji), hv]
+  · intro fid
+    have := liveCount_aset s j d { d with slot := { blocked := v.slot.blocked, rep := some { call := true, fn := rv.fn } }, taint := maxTaint d.taint v.taint } fid hd
+    have hl : v.slot.live fid = ({ blocked := v.slot.blocked, rep := some { call := true, fn := rv.fn } } : SlotB).live fid := by
+      obtain ⟨c, fn⟩ := rv
+      cases fn <;> simp [SlotB.live, hvr]
+    rw [hl]
+    exact this
+
+example : stepSimple { S := [(0, { isVoid := false, slot := { blocked := true, rep := some { call := true, fn := some (.leaf 3 []) } } }),
+                             (1, { isVoid := false, slot := { blocked := false, rep := some { call := true, fn := some (.leaf 5 []) } } })] } (.asgS 1 0)
+    = some ({ S := [(0, { isVoid := false, slot := { blocked := true, rep := some { call := true, fn := some (.leaf 3 []) } } }),
+                    (1, { isVoid := false, slot := { blocked := true, rep := some { call := true, fn := some (.leaf 3 []) } } })] }, "ok") := by
+  simp [stepSimple, aget, aset, SlotB.empty, SlotB.copy]
+
+/-- every branch at once (`release_once` for copy assignment): only variable `j` changes, the old functor
+    copy of the destination is dropped exactly once and replaced by what the branch says -/
+theorem asgS_release_once (s s' : St) (r : String) (j i : Nat) (d v : SlotVar)
+    (hd : aget s.S j = some d) (hv : aget s.S i = some v)
+    (hty : d.isVoid = v.isVoid) (hin : d.incall = 0)
+    (h : stepSimple s (.asgS j i) = some (s', r)) :
+    r = "ok" ∧ SlotFrame j s s' ∧
+    ∃ d', aget s'.S j = some d' ∧ d'.isVoid = d.isVoid ∧ d'.incall = d.incall ∧
+      (∀ fid, d'.slot.live fid = if j = i then d.slot.live fid else if v.slot.empty then 0 else v.slot.live fid) ∧
+      (∀ fid, liveCount s' fid + d.slot.live fid = liveCount s fid + d'.slot.live fid) := by
+  rw [asgS_eq s j i d v hd hv hty hin] at h
+  simp only [Option.some.injEq, Prod.mk.injEq] at h
+  obtain ⟨rfl, rfl⟩ := h
+  refine ⟨rfl, slotFrame_aset _ _ _, _, aget_aset_same _ _ _, rfl, rfl, ?_, fun fid => liveCount_aset s j d _ fid hd⟩
+  intro fid
+  show (asgSlot j i d.slot v.slot).live fid = _
+  unfold asgSlot
+  by_cases hji : j = i
+  · subst hji
+    simp [SlotB.live]
+  · by_cases hb : d.slot.rep = none ∧ v.slot.rep = none
+    · simp [hji, hb.1, hb.2, SlotB.live, SlotB.empty]
+    · by_cases he : v.slot.empty = true
+      · simp [hji, hb, he, SlotB.live]
+      · simp only [hji, he, if_false]
+        have : (d.slot.rep.isNone && v.slot.rep.isNone) = false := by
+          cases hdr : d.slot.rep <;> cases hvr : v.slot.rep <;> simp_all
+        simp only [this, Bool.or_false, decide_false, Bool.false_eq_true, if_false]
+        have := copy_rep_live v.slot v.slot.blocked fid
+        simpa [he] using this
+
+/-- a type mismatch or a destination inside its own call is refused without any effect -/
+theorem asgS_refused (s : St) (j i : Nat) (d v : SlotVar)
+    (hd : aget s.S j = some d) (hv : aget s.S i = some v) :
+    (d.isVoid ≠ v.isVoid → stepSimple s (.asgS j i) = some (s, "badtype")) ∧
+    (d.isVoid = v.isVoid → d.incall > 0 → stepSimple s (.asgS j i) = some (s, "busy")) :=
+  ⟨asgS_badtype s j i d v hd hv, asgS_busy s j i d v hd hv⟩
+
+example : stepSimple { S := [(0, { isVoid := false, slot := {}, incall := 1 })] } (.asgS 0 0)
+    = some ({ S := [(0, { isVoid := false, slot := {}, incall := 1 })] }, "busy") := by
+  simp [stepSimple, aget]
+
+/-! ## move assignment `masgS j i` (`slot_base::operator=(slot_base&&)`) -/
+
+/-- self-move-assignment is a no-op on the whole state -/
+theorem masgS_self_assign_noop (s s' : St) (r : String) (i : Nat) (d : SlotVar)
+    (hd : aget s.S i = some d) (hin : d.incall = 0)
+    (h : stepSimple s (.masgS i i) = some (s', r)) :
+    r = "ok" ∧ s' = s := by
+  rw [masgS_eq_same s i i d d hd hd rfl hin hin (by simp)] at h
+  simp only [Option.some.injEq, Prod.mk.injEq] at h
+  obtain ⟨rfl, rfl⟩ := h
+  refine ⟨rfl, ?_⟩
+  have : ({ d with slot := { d.slot with blocked := d.slot.blocked }, taint := maxTaint d.taint d.taint } : SlotVar) = d := by
+    simp [maxTaint_self]
+  rw [this, aset_self _ _ _ hd]
+
+example : stepSimple { S := [(0, { isVoid := false, slot := { blocked := true, rep := some { call := true, fn := some (.leaf 3 []) } } })] } (.masgS 0 0)
+    = some ({ S := [(0, { isVoid := false, slot := { blocked := true, rep := some { call := true, fn := some (.leaf 3 []) } } })] }, "ok") := by
+  simp [stepSimple, aget, aset]
+
+/-- both operands without a rep: only `blocked_` is copied; the source keeps its state -/
+theorem masgS_both_without_rep (s s' : St) (r : String) (j i : Nat) (d v : SlotVar)
+    (hd : aget s.S j = some d) (hv : aget s.S i = some v)
+    (hty : d.isVoid = v.isVoid) (hin : d.incall = 0) (hin' : v.incall = 0)
+    (hdr : d.slot.rep = none) (hvr : v.slot.rep = none)
+    (h : stepSimple s (.masgS j i) = some (s', r)) :
+    r = "ok" ∧
+    aget s'.S j = some { d with slot := { blocked := v.slot.blocked, rep := none }, taint := maxTaint d.taint v.taint } ∧
+    SlotFrame j s s' ∧ ∀ fid, liveCount s' fid = liveCount s fid := by
+  rw [masgS_eq_same s j i d v hd hv hty hin hin' (by simp [hdr, hvr])] at h
+  simp only [Option.some.injEq, Prod.mk.injEq] at h
+  obtain ⟨rfl, rfl⟩ := h
+  have hs : ({ d.slot with blocked := v.slot.blocked } : SlotB) = { blocked := v.slot.blocked, rep := none } := by
+    simp [hdr]
+  rw [hs]
+  refine ⟨rfl, aget_aset_same _ _ _, slotFrame_aset _ _ _, ?_⟩
+  intro fid
+  have := liveCount_aset s j d { d with slot := { blocked := v.slot.blocked, rep := none }, taint := maxTaint d.taint v.taint } fid hd
+  rw [live_of_rep_none d.slot fid hdr] at this
+  exact this
+
+example : stepSimple { S := [(0, { isVoid := false, slot := { blocked := true, rep := none } }), (1, { isVoid := false, slot := {} })] } (.masgS 1 0)
+    = some ({ S := [(0, { isVoid := false, slot := { blocked := true, rep := none } }), (1, { isVoid := false, slot := { blocked := true, rep := none } })] }, "ok") := by
+  simp [stepSimple, aget, aset]
+
+/-- source empty: the destination's rep is dropped, its functor copy released, its blocking state kept;
+    the source is untouched -/
+theorem masgS_from_empty (s s' : St) (r : String) (j i : Nat) (d v : SlotVar)
+    (hd : aget s.S j = some d) (hv : aget s.S i = some v)
+    (hty : d.isVoid = v.isVoid) (hin : d.incall = 0) (hin' : v.incall = 0)
+    (hji : j ≠ i) (hrep : d.slot.rep ≠ none ∨ v.slot.rep ≠ none) (he : v.slot.empty = true)
+    (h : stepSimple s (.masgS j i) = some (s', r)) :
+    r = "ok" ∧
+    aget s'.S j = some { d with slot := { blocked := d.slot.blocked, rep := none }, taint := maxTaint d.taint v.taint } ∧
+    aget s'.S i = some v ∧ SlotFrame j s s' ∧
+    ∀ fid, liveCount s' fid + d.slot.live fid = liveCount s fid := by
+  have hs : (j = i || (d.slot.rep.isNone && v.slot.rep.isNone)) = false := by
+    cases hdr : d.slot.rep <;> cases hvr : v.slot.rep <;> simp_all
+  rw [masgS_eq_empty s j i d v hd hv hty hin hin' hs he] at h
+  simp only [Option.some.injEq, Prod.mk.injEq] at h
+  obtain ⟨rfl, rfl⟩ := h
+  refine ⟨rfl, aget_aset_same _ _ _, ?_, slotFrame_aset _ _ _, ?_⟩
+  · show aget (aset s.S j _) i = _
+    rw [aget_aset_other _ _ _ _ (Ne.symm hji), hv]
+  · intro fid
+    have := liveCount_aset s j d { d with slot := { blocked := d.slot.blocked, rep := none }, taint := maxTaint d.taint v.taint } fid hd
+    exact this
+
+example : stepSimple { S := [(0, { isVoid := false, slot := {} }),
+                             (1, { isVoid := false, slot := { blocked := true, rep := some { call := true, fn := some (.leaf 3 []) } } })] } (.masgS 1 0)
+    = some ({ S := [(0, { isVoid := false, slot := {} }),
+                    (1, { isVoid := false, slot := { blocked := true, rep := none } })] }, "ok") := by
+  simp [stepSimple, aget, aset, SlotB.empty]
+
+/-- source valid: the destination takes over the source's rep (the functor is moved, not copied) and
+    blocking state, the source becomes `slot_base()`; the destination's old functor copy is dropped once -/
+theorem masgS_from_valid (s s' : St) (r : String) (j i : Nat) (d v : SlotVar)
+    (hd : aget s.S j = some d) (hv : aget s.S i = some v)
+    (hty : d.isVoid = v.isVoid) (hin : d.incall = 0) (hin' : v.incall = 0)
+    (hji : j ≠ i) (he : v.slot.empty = false)
+    (h : stepSimple s (.masgS j i) = some (s', r)) :
+    r = "ok" ∧
+    aget s'.S j = some { d with slot := { blocked := v.slot.blocked, rep := v.slot.rep }, taint := maxTaint d.taint v.taint } ∧
+    aget s'.S i = some { v with slot := { blocked := false, rep := none } } ∧ SlotFrame2 j i s s' ∧
+    ∀ fid, liveCount s' fid + d.slot.live fid = liveCount s fid := by
+  have hs : (j = i || (d.slot.rep.isNone && v.slot.rep.isNone)) = false := by
+    cases hvr : v.slot.rep <;> simp_all [SlotB.empty]
+  rw [masgS_eq_valid s j i d v hd hv hty hin hin' hs he] at h
+  simp only [Option.some.injEq, Prod.mk.injEq] at h
+  obtain ⟨rfl, rfl⟩ := h
+  refine ⟨rfl, aget_aset_same _ _ _, ?_, slotFrame2_aset2 _ _ _ _ _, ?_⟩
+  · show aget (aset (aset s.S i _) j _) i = _
+    rw [aget_aset_other _ _ _ _ (Ne.symm hji), aget_aset_same]
+  · intro fid
+    have h1 := liveCount_aset s i v { v with slot := { blocked := false, rep := none } } fid hv
+    have hd' : aget ({ s with S := aset s.S i { v with slot := { blocked := false, rep := none } } } : St).S j = some d := by
+      show aget (aset s.S i _) j = some d
+      rw [aget_aset_other _ _ _ _ hji, hd]
+    have h2 := liveCount_aset { s with S := aset s.S i { v with slot := { blocked := false, rep := none } } } j d
+      { d with slot := { blocked := v.slot.blocked, rep := v.slot.rep }, taint := maxTaint d.taint v.taint } fid hd'
+    have h3 : ({ blocked := v.slot.blocked, rep := v.slot.rep } : SlotB).live fid = v.slot.live fid := rfl
+    have h4 : ({ blocked := false, rep := none } : SlotB).live fid = 0 := rfl
+    simp only [h4] at h1 h2
+    show liveCount { s with S := aset (aset s.S i _) j _ } fid + _ = _
+    omega
+
+example : stepSimple { S := [(0, { isVoid := false, slot := { blocked := true, rep := some { call := true, fn := some (.leaf 3 []) } } }),
+                             (1, { isVoid := false, slot := { blocked := false, rep := some { call := true, fn := some (.leaf 5 []) } } })] } (.masgS 1 0)
+    = some ({ S := [(0, { isVoid := false, slot := {} }),
+                    (1, { isVoid := false, slot := { blocked := true, rep := some { call := true, fn := some (.leaf 3 []) } } })] }, "ok") := by
+  simp [stepSimple, aget, aset, SlotB.empty]
+
+/-- every branch of move assignment between two different variables drops the destination's old
+    functor copy exactly once and creates none; nothing but the two variables changes -/
+theorem masgS_release_once (s s' : St) (r : String) (j i : Nat) (d v : SlotVar)
+    (hd : aget s.S j = some d) (hv : aget s.S i = some v)
+    (hty : d.isVoid = v.isVoid) (hin : d.incall = 0) (hin' : v.incall = 0) (hji : j ≠ i)
+    (h : stepSimple s (.masgS j i) = some (s', r)) :
+    r = "ok" ∧ SlotFrame2 j i s s' ∧ ∀ fid, liveCount s' fid + d.slot.live fid = liveCount s fid := by
+  by_cases he : v.slot.empty = true
+  · by_cases hb : d.slot.rep = none ∧ v.slot.rep = none
+    · obtain ⟨h1, _, h3, h4⟩ := masgS_both_without_rep s s' r j i d v hd hv hty hin hin' hb.1 hb.2 h
+      refine ⟨h1, h3.to2 i, fun fid => ?_⟩
+      rw [h4 fid, live_of_rep_none d.slot fid hb.1]; rfl
+    · have hrep : d.slot.rep ≠ none ∨ v.slot.rep ≠ none := by
+        cases hdr : d.slot.rep <;> cases hvr : v.slot.rep <;> simp_all
+      obtain ⟨h1, _, _, h3, h4⟩ := masgS_from_empty s s' r j i d v hd hv hty hin hin' hji hrep he h
+      exact ⟨h1, h3.to2 i, h4⟩
+  · have he' : v.slot.empty = false := by simpa using he
+    obtain ⟨h1, _, _, h3, h4⟩ := masgS_from_valid s s' r j i d v hd hv hty hin hin' hji he' h
+    exact ⟨h1, h3, h4⟩
+
+/-- move assignment is refused while either operand is inside its own call -/
+theorem masgS_refused_busy (s : St) (j i : Nat) (d v : SlotVar)
+    (hd : aget s.S j = some d) (hv : aget s.S i = some v) (hty : d.isVoid = v.isVoid)
+    (hin : d.incall > 0 ∨ v.incall > 0) : stepSimple s (.masgS j i) = some (s, "busy") :=
+  masgS_busy s j i d v hd hv hty hin
+
+example : stepSimple { S := [(0, { isVoid := false, slot := {}, incall := 1 }), (1, { isVoid := false, slot := {} })] } (.masgS 1 0)
+    = some ({ S := [(0, { isVoid := false, slot := {}, incall := 1 }), (1, { isVoid := false, slot := {} })] }, "busy") := by
+  simp [stepSimple, aget]
+
+/-! ## `setS`, `discS`, `delS` -/
+
+/-- assigning a functor: the variable becomes valid and unblocked, holding `fn`; the old functor copy is
+    dropped once; no other slot variable, cell or connection changes (`.fwd` marks its signal object) -/
+theorem setS_assigns (s s0 s' : St) (r : String) (i : Nat) (d : SlotVar) (spec : FSpec) (fn : Fun)
+    (hd : aget s.S i = some d) (hin : d.incall = 0) (hf : mkFun s d.isVoid spec = .ok (fn, s0))
+    (h : stepSimple s (.setS i spec) = some (s', r)) :
+    r = "ok" ∧
+    (∃ v, aget s'.S i = some v ∧ v.slot = { blocked := false, rep := some { call := true, fn := some fn } } ∧
+          v.slot.empty = false ∧ v.isVoid = d.isVoid ∧ v.incall = d.incall) ∧
+    (∀ k, k ≠ i → aget s'.S k = aget s.S k) ∧
+    s'.impls = s.impls ∧ s'.C = s.C ∧ s'.K = s.K ∧ s'.T = s.T ∧ s'.G = s0.G ∧
+    ((∀ g, spec ≠ .fwd g) → s'.G = s.G) ∧
+    ∀ fid, liveCount s' fid + d.slot.live fid = liveCount s fid + fn.count fid := by
+  rw [setS_eq s s0 i d spec fn hd hin hf] at h
+  simp only [Option.some.injEq, Prod.mk.injEq] at h
+  obtain ⟨rfl, rfl⟩ := h
+  obtain ⟨⟨hT, hS, hC, hK, hI, _⟩, _⟩ := mkFun_ok s s0 _ spec fn hf
+  refine ⟨rfl, ⟨_, aget_aset_same _ _ _, rfl, rfl, rfl, rfl⟩, ?_, hI, hC, hK, hT, rfl, ?_, ?_⟩
+  · intro k hk
+    show aget (aset s0.S i _) k = _
+    rw [aget_aset_other _ _ _ _ hk, hS]
+  · intro hn
+    rw [mkFun_ok_notfwd s s0 _ spec fn hf hn]
+  · intro fid
+    have := liveCount_aset s0 i d { d with slot := { blocked := false, rep := some { call := true, fn := some fn } }, taint := maxTaint d.taint (specTaint s spec) } fid (by rw [hS]; exact hd)
+    rw [liveCount_congr s s0 fid hS hI] at this
+    exact this
+
+example : stepSimple { S := [(0, { isVoid := false, slot := { blocked := true, rep := some { call := false, fn := some (.leaf 3 []) } } })] } (.setS 0 (.fn 5))
+    = some ({ S := [(0, { isVoid := false, slot := { blocked := false, rep := some { call := true, fn := some (.leaf 5 []) } } })] }, "ok") := by
+  simp [stepSimple, aget, aset, mkFun, specTaint]
+
+/-- `slot.disconnect()`: only that variable changes, it becomes empty (`empty()` answers 1), keeps its
+    blocking state, and its functor is not yet released -/
+theorem discS_only_that_slot (s s' : St) (r : String) (i : Nat) (v : SlotVar)
+    (hv : aget s.S i = some v) (h : stepSimple s (.discS i) = some (s', r)) :
+    r = "ok" ∧ aget s'.S i = some { v with slot := v.slot.disconnectRep } ∧
+    v.slot.disconnectRep.empty = true ∧ v.slot.disconnectRep.blocked = v.slot.blocked ∧
+    SlotFrame i s s' ∧ stepSimple s' (.emptySq i) = some (s', "1") ∧
+    ∀ fid, liveCount s' fid = liveCount s fid := by
+  rw [discS_eq s i v hv] at h
+  simp only [Option.some.injEq, Prod.mk.injEq] at h
+  obtain ⟨rfl, rfl⟩ := h
+  refine ⟨rfl, aget_aset_same _ _ _, (disconnect_empties _).1, (disconnect_empties _).2, slotFrame_aset _ _ _, ?_, ?_⟩
+  · simp [stepSimple, (disconnect_empties v.slot).1, bstr]
+  · intro fid
+    have := liveCount_aset s i v { v with slot := v.slot.disconnectRep } fid hv
+    rw [show ({ v with slot := v.slot.disconnectRep } : SlotVar).slot.live fid = v.slot.live fid from
+          (disconnect_keeps_functor v.slot fid).1] at this
+    omega
+
+example : stepSimple { S := [(0, { isVoid := false, slot := { blocked := true, rep := some { call := true, fn := some (.leaf 3 []) } } })] } (.discS 0)
+    = some ({ S := [(0, { isVoid := false, slot := { blocked := true, rep := some { call := false, fn := some (.leaf 3 []) } } })] }, "ok") := by
+  simp [stepSimple, aget, aset, SlotB.disconnectRep]
+
+/-- `disconnect()` empties that one slot until a new functor is assigned to it: after `discS i` the
+    variable answers `empty() = 1`; after a following successful `setS i spec` it answers `0` -/
+theorem disconnect_until_assigned (s s1 s0 s2 : St) (r1 r2 : String) (i : Nat) (v : SlotVar) (spec : FSpec) (fn : Fun)
+    (hv : aget s.S i = some v) (hin : v.incall = 0)
+    (h1 : stepSimple s (.discS i) = some (s1, r1))
+    (hf : mkFun s1 v.isVoid spec = .ok (fn, s0))
+    (h2 : stepSimple s1 (.setS i spec) = some (s2, r2)) :
+    stepSimple s1 (.emptySq i) = some (s1, "1") ∧ r2 = "ok" ∧ stepSimple s2 (.emptySq i) = some (s2, "0") := by
+  obtain ⟨_, hv1, _, _, _, he1, _⟩ := discS_only_that_slot s s1 r1 i v hv h1
+  obtain ⟨hr2, ⟨v2, hv2, _, hne, _⟩, _⟩ :=
+    setS_assigns s1 s0 s2 r2 i { v with slot := v.slot.disconnectRep } spec fn hv1 hin hf h2
+  refine ⟨he1, hr2, ?_⟩
+  simp [stepSimple, hv2, hne, bstr]
+
+example : ∃ s1 s2, stepSimple { S := [(0, { isVoid := false, slot := { blocked := false, rep := some { call := true, fn := some (.leaf 3 []) } } })] } (.discS 0) = some (s1, "ok")
+    ∧ stepSimple s1 (.emptySq 0) = some (s1, "1") ∧ stepSimple s1 (.setS 0 (.fn 4)) = some (s2, "ok")
+    ∧ stepSimple s2 (.emptySq 0) = some (s2, "0") := by
+  refine ⟨_, _, by simp [stepSimple, aget, aset]; rfl, ?_, by simp [stepSimple, aget, aset, mkFun]; rfl, ?_⟩ <;>
+  simp [stepSimple, aget, SlotB.disconnectRep, SlotB.empty, bstr]
+
+/-- destroying a slot variable removes only that variable and releases (at least) its functor copy;
+    refused while a direct call of it is running -/
+theorem delS_only_that_slot (s s' : St) (r : String) (i : Nat) (v : SlotVar)
+    (hv : aget s.S i = some v) (hin : v.incall = 0) (h : stepSimple s (.delS i) = some (s', r)) :
+    r = "ok" ∧ aget s'.S i = none ∧ SlotFrame i s s' ∧
+    ∀ fid, liveCount s' fid + v.slot.live fid ≤ liveCount s fid := by
+  rw [delS_eq s i v hv hin] at h
+  simp only [Option.some.injEq, Prod.mk.injEq] at h
+  obtain ⟨rfl, rfl⟩ := h
+  exact ⟨rfl, aget_adel_same _ _, slotFrame_adel _ _, fun fid => liveCount_adel_le s i v fid hv⟩
+
+theorem delS_refused_busy (s : St) (i : Nat) (v : SlotVar) (hv : aget s.S i = some v) (hin : v.incall > 0) :
+    stepSimple s (.delS i) = some (s, "busy") := by
+  simp only [stepSimple, hv, hin]
+  rfl
+
+example : stepSimple { S := [(0, { isVoid := false, slot := {} }), (1, { isVoid := true, slot := {} })] } (.delS 0)
+    = some ({ S := [(1, { isVoid := true, slot := {} })] }, "ok") := by
+  simp [stepSimple, aget, adel]
+
+/-! ## copies are independent: an operation on one slot variable never affects another -/
+
+/-- every operation on slot variables (`mkS mkS0 cpS mvS asgS masgS setS delS discS blockS blockedSq
+    emptySq`; `slotWrites op` lists the variables the operation names as destination/moved-from source)
+    leaves every other slot variable — in particular a copy made earlier, or the original of a copy —
+    exactly as it was (rep, functor, blocking state), and touches no cell, connection or trackable.
+    Holds in every state and every branch (also the refused ones). -/
+theorem copy_independent (s s' : St) (r : String) (op : Op) (ws : List Nat)
+    (hw : slotWrites op = some ws) (h : stepSimple s op = some (s', r)) :
+    (∀ k, k ∉ ws → aget s'.S k = aget s.S k) ∧
+    s'.impls = s.impls ∧ s'.C = s.C ∧ s'.K = s.K ∧ s'.T = s.T := by
+  obtain ⟨hT, hC, hK, hI, _, hS⟩ := slotOp_sframe s s' r op ws hw h
+  exact ⟨hS, hI, hC, hK, hT⟩
+
+/-- in particular: blocking, disconnecting, destroying, reassigning (functor, copy or move from a third
+    variable) variable `j` leaves variable `i ≠ j` untouched -/
+theorem copy_independent_ops (s s' : St) (r : String) (j i i' : Nat) (b : Bool) (spec : FSpec)
+    (hij : i ≠ j) (hii : i ≠ i')
+    (h : stepSimple s (.blockS j b) = some (s', r) ∨ stepSimple s (.discS j) = some (s', r) ∨
+         stepSimple s (.delS j) = some (s', r) ∨ stepSimple s (.setS j spec) = some (s', r) ∨
+         stepSimple s (.asgS j i) = some (s', r) ∨ stepSimple s (.asgS j i') = some (s', r) ∨
+         stepSimple s (.masgS j i') = some (s', r) ∨ stepSimple s (.cpS j i) = some (s', r)) :
+    aget s'.S i = aget s.S i := by
+  rcases h with h | h | h | h | h | h | h | h
+  · exact (copy_independent s s' r _ [j] rfl h).1 i (by simp [hij])
+  · exact (copy_independent s s' r _ [j] rfl h).1 i (by simp [hij])
+  · exact (copy_independent s s' r _ [j] rfl h).1 i (by simp [hij])
+  · exact (copy_independent s s' r _ [j] rfl h).1 i (by simp [hij])
+  · exact (copy_independent s s' r _ [j] rfl h).1 i (by simp [hij])
+  · exact (copy_independent s s' r _ [j] rfl h).1 i (by simp [hij])
+  · exact (copy_independent s s' r _ [j, i'] rfl h).1 i (by simp [hij, hii])
+  · exact (copy_independent s s' r _ [j] rfl h).1 i (by simp [hij])
+
+example : ∃ s1 s2, stepSimple { S := [(0, { isVoid := false, slot := { blocked := false, rep := some { call := true, fn := some (.leaf 3 []) } } })] } (.cpS 1 0) = some (s1, "ok")
+    ∧ stepSimple s1 (.discS 0) = some (s2, "ok")
+    ∧ aget s2.S 1 = some { isVoid := false, slot := { blocked := false, rep := some { call := true, fn := some (.leaf 3 []) } } } := by
+  refine ⟨_, _, by simp [stepSimple, aget, aset]; rfl, by simp [stepSimple, aget, aset]; rfl, ?_⟩
+  simp [aget, SlotB.copy]
+
+/-! ## connecting a slot variable to a signal by copy and by move -/
+
+/-- meaning of the helper definitions used below -/
+theorem newCell_facts (cid : Nat) (sl : SlotB) :
+    (newCell cid sl).id = cid ∧ (newCell cid sl).linked = true ∧
+    (newCell cid sl).slot.blocked = sl.blocked ∧ (newCell cid sl).slot.empty = sl.empty ∧
+    (∀ fid, (newCell cid sl).slot.live fid = sl.live fid) ∧
+    (∀ r, sl.rep = some r → (newCell cid sl).slot = sl) ∧
+    (sl.rep = none → (newCell cid sl).slot = { blocked := sl.blocked, rep := some { call := false, fn := none } }) :=
+  ⟨rfl, rfl, withDummy_blocked sl, withDummy_empty sl, withDummy_live sl, fun r h => withDummy_of_rep sl r h,
+   fun h => by simp [newCell, withDummy, h]⟩
+
+theorem insAt_facts (c : Cell) (cs : List Cell) : insAt true c cs = c :: cs ∧ insAt false c cs = cs ++ [c] := ⟨rfl, rfl⟩
+
+/-- `signal_base::impl()`: either the signal object already has its list (nothing changes), or a fresh
+    empty list is allocated; no slot variable, connection or trackable is touched -/
+theorem ensureImpl_cases (s s1 : St) (g im : Nat) (he : ensureImpl s g = some (s1, im)) :
+    s1.S = s.S ∧ s1.C = s.C ∧ s1.K = s.K ∧ s1.T = s.T ∧
+    ((s1 = s ∧ ∃ h, aget s.G g = some h ∧ h.impl = some im) ∨
+     (∃ h, aget s.G g = some h ∧ h.impl = none ∧ im = s.next ∧ aget s1.impls im = some {} ∧
+           s1.next = s.next + 1 ∧ (∀ k, k ≠ im → aget s1.impls k = aget s.impls k) ∧
+           aget s1.G g = some { h with impl := some im } ∧ ∀ k, k ≠ g → aget s1.G k = aget s.G k)) :=
+  ensureImpl_spec s s1 g im he
+
+/-- `signal.connect(slot)` / `connect_first(slot)` by copy: the slot variable is untouched (`S` unchanged);
+    the signal's list gets one new linked cell holding the copy of the slot (own functor copy, same blocking
+    state; a dummy rep if the slot had none) at the back/front, with a fresh id; connection `k` points at it;
+    every other list and connection is unchanged -/
+theorem conn_by_copy (s s1 s' : St) (r : String) (k g sv : Nat) (first : Bool) (h : Handle) (v : SlotVar)
+    (im : Nat) (x : Impl)
+    (hg : aget s.G g = some h) (hv : aget s.S sv = some v)
+    (hty : h.fl.isVoid = v.isVoid) (hta : v.taint < (h.lvl : Int))
+    (he : ensureImpl s g = some (s1, im)) (hx : aget s1.impls im = some x)
+    (hstep : stepSimple s (.conn k g sv first false) = some (s', r)) :
+    r = "ok" ∧ s'.S = s.S ∧ s'.T = s.T ∧ s'.K = s.K ∧ s'.G = s1.G ∧ s'.next = s1.next + 1 ∧
+    aget s'.C k = some (some s1.next) ∧ (∀ k', k' ≠ k → aget s'.C k' = aget s.C k') ∧
+    aget s'.impls im = some { x with cells := insAt first (newCell s1.next v.slot.copy) x.cells } ∧
+    (∀ i, i ≠ im → aget s'.impls i = aget s1.impls i) ∧
+    ∀ fid, liveCount s' fid = liveCount s1 fid + if v.slot.empty then 0 else v.slot.live fid := by
+  rw [conn_copy_eq s s1 k g sv first h v im x hg hv hty hta he hx] at hstep
+  simp only [Option.some.injEq, Prod.mk.injEq] at hstep
+  obtain ⟨rfl, rfl⟩ := hstep
+  obtain ⟨hS, hC, hK, hT, _⟩ := ensureImpl_spec s s1 g im he
+  refine ⟨rfl, hS, hT, hK, rfl, rfl, aget_aset_same _ _ _, ?_, aget_aset_same _ _ _, ?_, ?_⟩
+  · intro k' hk'
+    show aget (aset s1.C k _) k' = _
+    rw [aget_aset_other _ _ _ _ hk', hC]
+  · intro i hi
+    exact aget_aset_other _ _ _ _ hi
+  · intro fid
+    have := liveCount_insert { s1 with next := s1.next + 1 } im x first k (some s1.next) (newCell s1.next v.slot.copy) fid hx
+    rw [(newCell_facts s1.next v.slot.copy).2.2.2.2.1 fid, copy_live] at this
+    exact this
+
+example : stepSimple { G := [(0, { obj := 1, fl := .I, impl := some 3, trk := 2, lvl := 0 })],
+                       S := [(0, { isVoid := false, slot := { blocked := true, rep := some { call := true, fn := some (.leaf 3 []) } } })],
+                       impls := [(3, {})], next := 4 } (.conn 0 0 0 false false)
+    = some ({ G := [(0, { obj := 1, fl := .I, impl := some 3, trk := 2, lvl := 0 })],
+              S := [(0, { isVoid := false, slot := { blocked := true, rep := some { call := true, fn := some (.leaf 3 []) } } })],
+              impls := [(3, { cells := [{ id := 4, slot := { blocked := true, rep := some { call := true, fn := some (.leaf 3 []) } }, linked := true }] })],
+              C := [(0, some 4)], next := 5 }, "ok") := by
+  simp [stepSimple, aget, aset, ensureImpl, insertCell, St.fresh, setImpl, setConn, SlotB.copy, Flavour.isVoid]
+
+/-- connecting by move (`connect(std::move(slot))`): the slot variable becomes `move.2`, i.e. empty; the
+    new cell holds `move.1` (the very rep of the variable: no functor copy is made or lost) -/
+theorem conn_by_move (s s1 s' : St) (r : String) (k g sv : Nat) (first : Bool) (h : Handle) (v : SlotVar)
+    (im : Nat) (x : Impl)
+    (hg : aget s.G g = some h) (hv : aget s.S sv = some v)
+    (hty : h.fl.isVoid = v.isVoid) (hta : v.taint < (h.lvl : Int)) (hin : v.incall = 0)
+    (he : ensureImpl s g = some (s1, im)) (hx : aget s1.impls im = some x)
+    (hstep : stepSimple s (.conn k g sv first true) = some (s', r)) :
+    r = "ok" ∧ aget s'.S sv = some { v with slot := v.slot.move.2 } ∧ v.slot.move.2.empty = true ∧
+    (∀ j, j ≠ sv → aget s'.S j = aget s.S j) ∧
+    s'.T = s.T ∧ s'.K = s.K ∧ s'.G = s1.G ∧ s'.next = s1.next + 1 ∧
+    aget s'.C k = some (some s1.next) ∧ (∀ k', k' ≠ k → aget s'.C k' = aget s.C k') ∧
+    aget s'.impls im = some { x with cells := insAt first (newCell s1.next v.slot.move.1) x.cells } ∧
+    (∀ i, i ≠ im → aget s'.impls i = aget s1.impls i) ∧
+    ∀ fid, liveCount s' fid = liveCount s1 fid := by
+  rw [conn_move_eq s s1 k g sv first h v im x hg hv hty hta hin he hx] at hstep
+  simp only [Option.some.injEq, Prod.mk.injEq] at hstep
+  obtain ⟨rfl, rfl⟩ := hstep
+  obtain ⟨hS, hC, hK, hT, _⟩ := ensureImpl_spec s s1 g im he
+  refine ⟨rfl, aget_aset_same _ _ _, move_empties_source _, ?_, hT, hK, rfl, rfl, aget_aset_same _ _ _, ?_,
+          aget_aset_same _ _ _, ?_, ?_⟩
+  · intro j hj
+    show aget (aset s1.S sv _) j = _
+    rw [aget_aset_other _ _ _ _ hj, hS]
+  · intro k' hk'
+    show aget (aset s1.C k _) k' = _
+    rw [aget_aset_other _ _ _ _ hk', hC]
+  · intro i hi
+    exact aget_aset_other _ _ _ _ hi
+  · intro fid
+    have h1 := liveCount_insert { s1 with next := s1.next + 1, S := aset s1.S sv { v with slot := v.slot.move.2 } }
+      im x first k (some s1.next) (newCell s1.next v.slot.move.1) fid hx
+    have h2 := liveCount_aset s1 sv v { v with slot := v.slot.move.2 } fid (by rw [hS]; exact hv)
+    have h3 := move_live v.slot fid
+    have h4 : liveCount { s1 with next := s1.next + 1, S := aset s1.S sv { v with slot := v.slot.move.2 } } fid
+            = liveCount { s1 with S := aset s1.S sv { v with slot := v.slot.move.2 } } fid := rfl
+    rw [(newCell_facts s1.next v.slot.move.1).2.2.2.2.1 fid] at h1
+    simp only at h2
+    omega
+
+example : stepSimple { G := [(0, { obj := 1, fl := .I, impl := none, trk := 2, lvl := 0 })],
+                       S := [(0, { isVoid := false, slot := { blocked := true, rep := some { call := true, fn := some (.leaf 3 []) } } })],
+                       next := 3 } (.conn 0 0 0 true true)
+    = some ({ G := [(0, { obj := 1, fl := .I, impl := some 3, trk := 2, lvl := 0 })],
+              S := [(0, { isVoid := false, slot := {} })],
+              impls := [(3, { cells := [{ id := 4, slot := { blocked := true, rep := some { call := true, fn := some (.leaf 3 []) } }, linked := true }] })],
+              C := [(0, some 4)], next := 5 }, "ok") := by
+  simp [stepSimple, aget, aset, ensureImpl, insertCell, St.fresh, setImpl, setConn, SlotB.move, Flavour.isVoid]
+
+/-- connecting by move is refused while a direct call of the variable is running -/
+theorem conn_by_move_busy (s : St) (k g sv : Nat) (first : Bool) (h : Handle) (v : SlotVar)
+    (hg : aget s.G g = some h) (hv : aget s.S sv = some v)
+    (hty : h.fl.isVoid = v.isVoid) (hta : v.taint < (h.lvl : Int)) (hin : v.incall > 0) :
+    stepSimple s (.conn k g sv first true) = some (s, "busy") := by
+  have h1 : (h.fl.isVoid != v.isVoid) = false := by simp [hty]
+  have h2 : ¬ (v.taint ≥ (h.lvl : Int)) := by omega
+  simp only [stepSimple, hg, hv, h1, h2, hin]
+  rfl
+
+/-! ## invocation -/
+
+/-- invoking an empty slot (no rep, invalidated or disconnected rep, released functor) or a blocked slot
+    runs no functor (the state — hence the call log — is unchanged) and returns a default-constructed
+    result — for every fuel and program -/
+theorem call_empty_default (f : Nat) (P : Prog) (s : St) (i arg : Nat) (v : SlotVar)
+    (hv : aget s.S i = some v) (hd : s.depth < P.maxdepth) (hs : s.steps ≤ P.maxsteps)
+    (he : v.slot.empty = true ∨ v.slot.blocked = true ∨ ∃ r, v.slot.rep = some r ∧ r.fn = none) :
+    execOp (f+1) P s (.callS i arg) = some (s, .ok (showRes v.isVoid 0)) := by
+  have h1 : ¬ (s.depth ≥ P.maxdepth) := by omega
+  have h2 : ¬ (s.steps > P.maxsteps) := by omega
+  rw [execOp]
+  simp only [hv, h1, h2, if_false]
+  cases hr : v.slot.rep with
+  | none => rfl
+  | some rp =>
+    obtain ⟨c, fn⟩ := rp
+    cases c with
+    | false => rfl
+    | true =>
+      cases fn with
+      | none => rfl
+      | some fn =>
+        rcases he with he | he | ⟨r, he, hn⟩
+        · simp [SlotB.empty, hr] at he
+        · simp [he]
+        · rw [hr] at he; cases he; cases hn
+
+example : execOp 1 { bodies := [], top := [] }
+      { S := [(0, { isVoid := false, slot := { blocked := true, rep := some { call := true, fn := some (.leaf 3 []) } } })] } (.callS 0 5)
+    = some ({ S := [(0, { isVoid := false, slot := { blocked := true, rep := some { call := true, fn := some (.leaf 3 []) } } })] }, .ok "r=0") := by
+  rw [call_empty_default 0 _ _ 0 5 _ rfl (by decide) (by decide) (.inr (.inl rfl))]
+  rfl
 
 end Sigc.C15
